@@ -21,7 +21,7 @@ CASE_TIMEOUT_S = 120
 UTC = timezone.utc
 SENTINELS = ["Africa/Cairo", "Africa/Casablanca", "Africa/El_Aaiun", "Pacific/Apia", "Australia/Lord_Howe", "Europe/Dublin", "Antarctica/Troll", "Asia/Kolkata", "UTC",
              "Africa/Algiers", "America/Argentina/Buenos_Aires", "Asia/Jerusalem", "Europe/Berlin", "America/New_York", "Asia/Hebron", "Europe/Lisbon", "Asia/Tehran",
-             "Africa/Monrovia"]        # (Monrovia: the 1972 transition is at 00:44:30 UTC - not on a full minute)
+             "Africa/Monrovia", "America/Costa_Rica", "America/Lima"]        # (Monrovia: the 1972 transition is at 00:44:30 UTC - not on a full minute; Costa Rica, Lima: daylight time only January to March/April of a few years)
 DAY = timedelta(days=1)
 
 
